@@ -235,7 +235,7 @@ def fault_run(tf, workdir, hist, op, k, mode, battery, auto=True, storage_kwargs
         res["after_close"] = s.contents()
         # reopen
         try:
-            db = tf.TinyFlux(s.path, **s.kw)
+            db = tf.TinyFlux(s.path, **{k_: v_ for k_, v_ in s.kw.items() if k_ != "access_mode"})      # (reopening with w+ would empty the file by definition)
             try:
                 res["reopened"] = [dbimpl._clean_point(p) for p in db.all(sorted=False)]
             finally:
